@@ -53,7 +53,12 @@ class IntegerNode(BaseNode, SelectNode):
                 self.value_raw = s.solve(self.value_fn, self.units_raw)
         if self.value_expr: # Process expression
             with NumericalSolver(env) as s:
-                self.value_raw = np.round(s.solve(self.value_expr, self.units_raw))
+                self.value_raw = s.solve(self.value_expr, self.units_raw)
+            if not self.units_raw: # node without units takes a dimensionless result
+                if not self.value_raw.baseunits.nodim:
+                    raise Exception("Expression result dimensions do not match node dimensions:", self.code)
+                self.value_raw = self.value_raw.value()
+            self.value_raw = np.round(self.value_raw)
         # Testing validity of units
         if self.units_raw:
             with UnitEnvironment(env.units):
